@@ -3,6 +3,7 @@
   driver evaluates on the implementation's observations (Spec/Sched.lean).
 -/
 import PjVerif.Lemmas.SchedPass
+import PjVerif.Lemmas.ScheduleSrc
 namespace Pj
 
 /-- every forward schedule, for every WBS, resource set, calendar, balance setting and clock: each usage row is a
@@ -33,5 +34,55 @@ theorem C03_resources_backward (env : Env) (f0 : Uid → Fields) (res0 : List (O
 theorem C03_default_calendar :
     defaultCal = .weekly none none [8, 8, 8, 8, 8, 0, 0] := by
   rfl
+
+/-! ### the tie of the inner loops to the current source, by translation
+
+`tools/extract_schedule.py` translates, on every run, `_ResourceUsage.reserved / reserve / __get_key` and the methods
+`__get_resource_nearest_available_date` / `__shift_by_resource_usage_and_calendar` of both schedulers (schedule.py) into
+PyLite terms (Extracted/ScheduleSrc.lean); calls that leave a method run the translated source of the callee (the ledger
+methods, resource.py, calendar.py).  The theorems say that running the translated source on a ledger is the model's
+function - with the model's `used` being what `reserved` returns on that ledger for the scheduler's balance setting - and
+that the ledger afterwards is the old one plus the model's rows.  A semantic edit of those methods breaks these proofs. -/
+
+/-- `_ResourceUsage.reserved(resource, date[, task])` as translated = the model's `reserved` -/
+theorem C03_source_reserved (rows : List Row) (r : Option Nat) (d : Time) (t : Option Uid) :
+    SchedSrc.interpReserved (rows.map SchedSrc.encRow) (.atom (.ref (SchedSrc.resRef r))) (.atom (.time d)) (SchedSrc.optRef t) =
+      .ok (.atom (.num (reserved rows r (dayOf d) t))) :=
+  SchedSrc.interpReserved_model rows r d t
+
+/-- `_ResourceUsage.reserve(resource, date, task, units)` as translated appends the row of the day and returns `units` -/
+theorem C03_source_reserve (rows : List Row) (r : Option Nat) (d : Time) (t : Uid) (u : Rat) :
+    SchedSrc.interpReserve (rows.map SchedSrc.encRow) (.atom (.ref (SchedSrc.resRef r))) (.atom (.time d)) (.atom (.ref t)) (.atom (.num u)) =
+      .ok (.atom (.num u), (rows ++ [({ res := r, day := dayOf d, task := t, units := u } : Row)]).map SchedSrc.encRow) :=
+  SchedSrc.interpReserve_model rows r d t u
+
+/-- forward `__get_resource_nearest_available_date` as translated = the model's `nearestFwd`; the ledger is not touched -/
+theorem C03_source_nearest_forward (cal : Cal) (b : Bool) (rows : List Row) (r : Option Nat) (t : Uid) (start : Time) :
+    SchedSrc.interpNearestFwd cal b (SchedSrc.resRef r) t (rows.map SchedSrc.encRow) start =
+      (nearestFwd cal (SchedSrc.usedOf rows r t b) start).map (fun e => (e, rows.map SchedSrc.encRow)) :=
+  SchedSrc.interpNearestFwd_eq cal b rows r t start
+
+/-- forward `__shift_by_resource_usage_and_calendar` as translated = the model's `shiftFwd`, and the ledger afterwards is
+    the old one followed by the model's rows -/
+theorem C03_source_shift_forward (fuel : Nat) (cal : Cal) (b : Bool) (rows : List Row) (r : Option Nat) (t : Uid)
+    (start : Time) (left : Rat) (hf : Extracted.fwdShiftMaxSteps < fuel) :
+    SchedSrc.interpShiftFwd fuel cal b (SchedSrc.resRef r) t (rows.map SchedSrc.encRow) start left =
+      (shiftFwd cal (SchedSrc.usedOf rows r t b) start left).map
+        (fun p => (p.1, (rows ++ p.2.map (mkRow r t)).map SchedSrc.encRow)) :=
+  SchedSrc.interpShiftFwd_eq fuel cal b rows r t start left hf
+
+/-- backward `__get_resource_nearest_available_date` as translated = the model's `nearestBwd` -/
+theorem C03_source_nearest_backward (cal : Cal) (b : Bool) (rows : List Row) (r : Option Nat) (t : Uid) (start : Time) :
+    SchedSrc.interpNearestBwd cal b (SchedSrc.resRef r) t (rows.map SchedSrc.encRow) start =
+      (nearestBwd cal (SchedSrc.usedOf rows r t b) start).map (fun e => (e, rows.map SchedSrc.encRow)) :=
+  SchedSrc.interpNearestBwd_eq cal b rows r t start
+
+/-- backward `__shift_by_resource_usage_and_calendar` as translated = the model's `shiftBwd` -/
+theorem C03_source_shift_backward (fuel : Nat) (cal : Cal) (b : Bool) (rows : List Row) (r : Option Nat) (t : Uid)
+    (end_ : Time) (left : Rat) (hf : Extracted.bwdShiftMaxSteps < fuel) :
+    SchedSrc.interpShiftBwd fuel cal b (SchedSrc.resRef r) t (rows.map SchedSrc.encRow) end_ left =
+      (shiftBwd cal (SchedSrc.usedOf rows r t b) end_ left).map
+        (fun p => (p.1, (rows ++ p.2.map (mkRow r t)).map SchedSrc.encRow)) :=
+  SchedSrc.interpShiftBwd_eq fuel cal b rows r t end_ left hf
 
 end Pj
